@@ -1686,6 +1686,17 @@ ILL_TYPED = [
     ("@@\n@@\n+for ... { bar() }\n-for ... { foo() }\n", "package a\n\nfunc f() { for i := 0; i < 3; i++ { foo() } }\n"),
     ("@@\nvar x expression\n@@\n-x\n+y\n", "package a\n\nimport \"fmt\"\n\nfunc f(a int) { fmt.Println(a) }\n"),
     ("@@\nvar x identifier\n@@\n-x\n+x.y\n", "package a\n\nfunc f(a int) { _ = a }\n\ntype T struct{ a int }\n"),
+    # elisions that stand for nothing, reproduced where the syntax needs at least one element
+    ("@@\n@@\n-foo(...)\n+bar = ...\n", "package a\n\nfunc f() {\n\tfoo()\n\tfoo(1)\n}\n"),
+    ("@@\n@@\n-foo(...)\n+bar := ...\n", "package a\n\nfunc f() {\n\tfoo()\n}\n"),
+    ("@@\n@@\n-foo(...)\n+..., x = bar()\n", "package a\n\nfunc f() {\n\tfoo()\n}\n"),
+    ("@@\n@@\n-foo(...)\n+var v = ...\n", "package a\n\nfunc f() {\n\tfoo()\n}\n"),
+    ("@@\n@@\n-foo(...)\n+go ...\n", "package a\n\nfunc f() {\n\tfoo()\n}\n"),
+    ("@@\n@@\n-foo(...)\n+bar[...]\n", "package a\n\nfunc f() {\n\tfoo()\n}\n"),
+    ("@@\n@@\n-foo(...)\n+switch ... {\n+}\n", "package a\n\nfunc f() {\n\tfoo()\n}\n"),
+    ("@@\n@@\n-foo(...)\n+bar = ...\n\n@@\nvar y expression\n@@\n-bar = y\n+baz(y)\n", "package a\n\nfunc f() {\n\tfoo()\n\tbar = 1\n}\n"),
+    ("@@\n@@\n type T struct {\n-  ...\n+  x, ... int\n }\n", "package a\n\ntype T struct {\n}\n"),
+    ("@@\n@@\n-func f(...) {\n+func f(a ...) {\n ...\n }\n", "package a\n\nfunc f() {\n}\n"),
 ]
 TRUNC = ["-func", "-func (", "-foo(func(", "+func() { var x int }", "-type", "-var", "-x := func(a", "-if", "-for ... {", "-switch x {", "-foo(", "-foo(...",
          "-a.", "-[]", "-struct {", "-map[", "-\"unterminated", "-'", "-`raw", "-/* comment", "-import", "-import (", "-package", "-func (r", "-func f(a, ...",
@@ -1848,8 +1859,11 @@ def c08(ctx):
     with open(pth, "w") as f:
         for c in [c for c in cases if c["id"].startswith("ill")]:
             f.write(json.dumps(c) + "\n")
+    # (crashes while parsing/compiling a patch and non-termination are reported by run_engine_batch itself;
+    # panics while a file is being patched are recovered by gopatch and surface as errors, which the
+    # API and CLI streams above observe)
     res = run_engine_batch(ctx, ["-inputs", pth], "c08ill") + engine_batches(ctx, "mix", 200, 6000, golden=False)
-    engine_projection(ctx, res, {"status"})
+    engine_projection(ctx, res, set())
 
 # --- C10 -------------------------------------------------------------------
 @signature("dup-import-path")
@@ -1966,6 +1980,8 @@ def sig_paren_minus(sig, what, payload):
                 continue
             code = l[1:]
             if re.search(r"\)\s*\(\)\s*\{", code):      # an empty result list "()", which go/printer drops
+                return True
+            if re.search(r"\)\s*\([^(),]*(\([^()]*\)[^(),]*)*\)\s*\{", code):   # one unnamed result in redundant parentheses
                 return True
             if re.search(r"(^|[\s(\[{,=:+\-*/%<>!&|^])\((?!\))", code) and not re.match(r"^\s*(func\b|\}?\s*else|import\b|var \(|const \(|type \()", code.strip()):
                 return True
